@@ -12,7 +12,8 @@ let parse_list s = if s = "" then [] else List.map (fun t -> z_of_int (int_of_st
 let show_list l = String.concat "," (List.map (fun z -> string_of_int (int_of_z z)) l)
 
 let () =
-  let ic = if Array.length Sys.argv > 1 then open_in Sys.argv.(1) else stdin in
+  let interactive = Array.length Sys.argv > 1 && Sys.argv.(1) = "-i" in
+  let ic = if Array.length Sys.argv > 1 && not interactive then open_in Sys.argv.(1) else stdin in
   let buf = Buffer.create (1 lsl 20) in
   (try
     while true do
@@ -24,7 +25,7 @@ let () =
          Buffer.add_string buf (string_of_int (int_of_z st));
          List.iter (fun o -> Buffer.add_char buf ';'; Buffer.add_string buf (show_list o)) outs;
          Buffer.add_char buf '\n');
-      if Buffer.length buf > (1 lsl 19) then (print_string (Buffer.contents buf); Buffer.clear buf)
+      if interactive || Buffer.length buf > (1 lsl 19) then (Stdlib.print_string (Buffer.contents buf); Stdlib.flush Stdlib.stdout; Buffer.clear buf)
     done
   with End_of_file -> ());
-  print_string (Buffer.contents buf)
+  Stdlib.print_string (Buffer.contents buf)
